@@ -1040,7 +1040,7 @@ Qed.
 (* ------------------------------------------------------------------ totality of every parser *)
 Theorem model_no_panic i : has_panic (model i) = false.
 Proof.
-  destruct i as [s|s|s|s|y m d h|s|s|rd s f|l|s]; cbn [model].
+  destruct i as [s|s|s|s|y m d h|s|s|rd s f|l|s|init l|init l]; cbn [model]; try reflexivity.
   - destruct (parse_uint s) as [|[|]]; reflexivity.
   - destruct (parse_int s) as [|[|]]; reflexivity.
   - destruct (atoi s) as [|[|]]; reflexivity.
@@ -1063,15 +1063,31 @@ Proof.
   rewrite andb_true_iff, !bytes_eqb_spec. split; [intros [-> ->]; reflexivity | intros H; inversion H; auto].
 Qed.
 
+Lemma stepd_eqb_spec a b : stepd_eqb a b = true <-> a = b.
+Proof.
+  destruct a as [o1 [[[y1 m1] d1] h1]], b as [o2 [[[y2 m2] d2] h2]]. unfold stepd_eqb, dur4_eqb. cbn [fst snd].
+  rewrite !andb_true_iff, !Z.eqb_eq, Bool.eqb_true_iff. split.
+  - intros [-> [[[-> ->] ->] ->]]. reflexivity.
+  - intros H; inversion H; auto.
+Qed.
+
+Lemma stepc_eqb_spec a b : stepc_eqb a b = true <-> a = b.
+Proof.
+  destruct a as [o1 v1], b as [o2 v2]. unfold stepc_eqb. cbn [fst snd].
+  rewrite andb_true_iff, Z.eqb_eq, Bool.eqb_true_iff. split; [intros [-> ->]; reflexivity | intros H; inversion H; auto].
+Qed.
+
 Lemma obs_eqb_spec a : forall b, obs_eqb a b = true <-> a = b.
 Proof.
-  induction a as [| | | |x|y1 m1 d1 h1|p1 r1 IH| |l1|l1]; intros b; destruct b; cbn [obs_eqb];
+  induction a as [| | | |x|y1 m1 d1 h1|p1 r1 IH| |l1|l1|l1|l1]; intros b; destruct b; cbn [obs_eqb];
     try (split; [discriminate | intros H; discriminate H]); try (split; reflexivity).
   - rewrite Z.eqb_eq. split; [intros ->; reflexivity | intros H; inversion H; reflexivity].
   - rewrite !andb_true_iff, !Z.eqb_eq. split; [intros [[[-> ->] ->] ->]; reflexivity | intros H; inversion H; auto].
   - rewrite andb_true_iff, bytes_eqb_spec, IH. split; [intros [-> ->]; reflexivity | intros H; inversion H; auto].
   - rewrite (list_eqb_spec pair_eqb pair_eqb_spec). split; [intros ->; reflexivity | intros H; inversion H; auto].
   - rewrite (list_eqb_spec bytes_eqb bytes_eqb_spec). split; [intros ->; reflexivity | intros H; inversion H; auto].
+  - rewrite (list_eqb_spec stepd_eqb stepd_eqb_spec). split; [intros ->; reflexivity | intros H; inversion H; auto].
+  - rewrite (list_eqb_spec stepc_eqb stepc_eqb_spec). split; [intros ->; reflexivity | intros H; inversion H; auto].
 Qed.
 
 (* what the oracle means: no crash; an answer that is not an error is the model's answer (which the
@@ -1091,8 +1107,8 @@ Proof.
     unfold dur_ok in Hd. cbn [d_years d_months d_days d_hours] in Hd. rewrite Hd in H3.
     apply obs_eqb_spec in H3. exact H3.
   - intros (H1 & H2 & H3). repeat split; try assumption.
-    unfold roundtrip_ok. destruct (c_in c) as [| | | |y m d h| | | | |] eqn:Ei; try reflexivity.
-    destruct (c_obs c) as [| | | | | |p r| | |] eqn:Eo; try reflexivity.
+    unfold roundtrip_ok. destruct (c_in c) as [| | | |y m d h| | | | | | |] eqn:Ei; try reflexivity.
+    destruct (c_obs c) as [| | | | | |p r| | | | |] eqn:Eo; try reflexivity.
     destruct (_ && _)%bool eqn:Ed; [|reflexivity]. apply obs_eqb_spec. eapply H3; try reflexivity. exact Ed.
 Qed.
 
@@ -1108,6 +1124,30 @@ Proof.
   unfold check_case, check_C49. destruct (has_panic (c_obs c)); [discriminate|].
   destruct (exact_ok c); [|discriminate]. destruct (roundtrip_ok _ _); [|discriminate]. cbn [negb andb].
   destruct (obs_eqb _ _) eqn:E; [|discriminate]. intros _. split; [reflexivity|]. apply obs_eqb_spec. exact E.
+Qed.
+
+(* ------------------------------------------------------------------ Set on an existing value (set_spec) *)
+(* after a successful Set the value is ParseDuration of that string alone, whatever the variable held; after
+   a failed Set the variable is unchanged *)
+Theorem dur_set_spec cur s :
+  (forall d, parse_duration s = DOk d -> dur_set cur s = (true, d))
+  /\ ((forall d, parse_duration s <> DOk d) -> dur_set cur s = (false, cur)).
+Proof.
+  unfold dur_set. split.
+  - intros d H. rewrite H. reflexivity.
+  - intros H. destruct (parse_duration s) as [d| | |]; try reflexivity. exfalso. apply (H d). reflexivity.
+Qed.
+
+Theorem dur_set_independent cur1 cur2 s : fst (dur_set cur1 s) = true -> dur_set cur1 s = dur_set cur2 s.
+Proof. unfold dur_set. destruct (parse_duration s); cbn [fst]; try discriminate. reflexivity. Qed.
+
+Theorem count_set_spec cur s :
+  (forall v, policy_count_set s = COk v -> count_set cur s = (true, v))
+  /\ ((forall v, policy_count_set s <> COk v) -> count_set cur s = (false, cur)).
+Proof.
+  unfold count_set. split.
+  - intros v H. rewrite H. reflexivity.
+  - intros H. destruct (policy_count_set s) as [v| |]; try reflexivity. exfalso. apply (H v). reflexivity.
 Qed.
 
 (* ------------------------------------------------------------------ non-vacuity *)
@@ -1135,5 +1175,7 @@ Example c49_nonvacuous_num :
   /\ check_flags false (str "256/256") FErr = FOk
   /\ check_flags false (str "1/257") FErr = FBad
   /\ check_flags false (str "NaN%") FNaN = FBad
-  /\ shell_split (str "sh -c 'a b'") = SOk [str "sh"; str "-c"; str "a b"].
+  /\ shell_split (str "sh -c 'a b'") = SOk [str "sh"; str "-c"; str "a b"]
+  /\ dur_set_seq dzero [str "1y6m"; str "2d"; str "3d5x"] = [(true, (1, 6, 0, 0)); (true, (0, 0, 2, 0)); (false, (0, 0, 2, 0))]
+  /\ count_set_seq 5 [str "x"; str "7"; str "-1"; str "unlimited"] = [(false, 5); (true, 7); (false, 7); (true, -1)].
 Proof. vm_compute. repeat split. Qed.
